@@ -29,7 +29,7 @@ def values_for(op, r, k):
     return c[k % len(c)]
 
 
-def op_line(op, r, k):
+def op_line(op, r, k, top=False):
     if op in OPS_INT:
         return '%s %d' % (op, values_for(op, r, k))
     if op == 'bool':
@@ -38,7 +38,10 @@ def op_line(op, r, k):
         return '%s %d' % (op, BND[k % len(BND)])
     if op in ('iarr', 'imap', 'brk'):
         return op
-    n = [0, 1, 23, 24, 255, 256, 9, 2047, 2048, 2049, 5000][k % 11]
+    if top:
+        n = [0, 1, 23, 24, 255, 256, 257, 2047, 2048, 2049, 65535, 65536, 65537][k % 13]
+    else:
+        n = [0, 1, 23, 24, 255, 256, 9, 2047, 2048, 2049, 5000][k % 11]
     return '%sn %d %d' % (op, n, k % 251)
 
 
@@ -164,9 +167,11 @@ def sweep_scripts(tier, seed):
             lines = ['open name none @WD@/sw_@I@']
             levels = range(0, 2049) if tier == 'quick' else range(part, 2049, 4)
             for L in levels:
-                for k in range(nval):
+                # near the end of the buffer (where a head may not fit any more) every boundary value is tried
+                nv = 13 if L >= 2028 else nval
+                for k in range(nv):
                     lines.append('fill %d' % L)
-                    lines.append(op_line(op, r, k + L * (1 if tier == 'quick' else 0) + seed))
+                    lines.append(op_line(op, r, k + (L * (1 if tier == 'quick' else 0) + seed if nv != 13 else 0), top=(L >= 2028)))
             lines.append('close')
             scripts.append(('sweep-%s-%d' % (op, part), lines, [('@WD@/sw_@I@', 'none')]))
     return scripts
